@@ -11,6 +11,7 @@ from sa.report import Result
 from sa.report import norm
 from sa.srcmodel import Program
 from sa.srcmodel import dotted
+from sa.util import callee_name
 
 
 def check_trim_carry_ownership(prog: Program, res: Result, rule: str, exit_rule: str | None = None) -> None:
@@ -21,7 +22,7 @@ def check_trim_carry_ownership(prog: Program, res: Result, rule: str, exit_rule:
         m = tc.methods.get("parse")
         if m is None:
             continue
-        calls = [c for c in ast.walk(m.node) if isinstance(c, ast.Call) and ((isinstance(c.func, ast.Attribute) and c.func.attr == "parse_block") or (isinstance(c.func, ast.Name) and c.func.id == "parse_block"))]
+        calls = [c for c in ast.walk(m.node) if isinstance(c, ast.Call) and callee_name(m.node, c) == "parse_block"]
         if not calls:
             continue
         res.analysed_functions.add(m.fid)
@@ -38,7 +39,7 @@ def check_trim_carry_ownership(prog: Program, res: Result, rule: str, exit_rule:
                     f = c.func
                     if isinstance(f, ast.Attribute) and isinstance(f.value, ast.Name) and f.value.id == stream_name and f.attr in ("next", "into_inner"):  # noqa: B023
                         ev.append((c.lineno, c.col_offset, "consume"))
-                    elif (isinstance(f, ast.Attribute) and f.attr == "parse_block") or (isinstance(f, ast.Name) and f.id == "parse_block"):
+                    elif callee_name(m.node, c) == "parse_block":  # noqa: B023
                         ev.append((c.end_lineno or c.lineno, c.end_col_offset or 0, "block"))
             if isinstance(node_ast, ast.Assign) and any(isinstance(t, ast.Attribute) and t.attr == "trim_carry" and isinstance(t.value, ast.Name) and t.value.id == stream_name for t in node_ast.targets):  # noqa: B023
                 ev.append((10**9, 0, "set"))
